@@ -42,7 +42,7 @@ def reads(case, lsm):
     out = []
     for k in case["keys"]:
         v = lsm.get_sync(k)
-        out.append("-" if v is None else str(v))
+        out.append(I.vtok(v))
     return " ".join(out)
 
 
@@ -286,6 +286,9 @@ class C15(core.Property):
     ]
     assumptions = [
         "values written by puts are pairwise distinct in generated cases",
+        "a value returned by the implementation that is not a plain non-negative int (an object nobody wrote: a copied tombstone sentinel, a "
+        "wrapped or stringified value) crosses the protocol as the reserved number 999999999 (c14_impl.vtok), which no workload writes, so the "
+        "Spec reports it under its own clauses (value never written / invented value)",
         "a write is durable iff its WAL sequence number ≤ wal.synced_up_to at the crash, or ≤ the sequence number of a write whose sync "
         "the clients saw complete (the sync policy answered 'sync now' inside that write and the write went on after the sync latency; "
         "under SyncEveryWrite also: its put()/delete() returned) — an fsync covers every entry appended before it",
